@@ -9,7 +9,7 @@ import ast
 from .. import astutil as A
 from ..fa import FA
 from ..loader import AnalysisError
-from .cache_model import CacheModel, self_attr, branch_filter, both
+from .cache_model import CacheModel, self_attr, branch_filter, both, safe_expand
 from .effects import reach_effects, storage_backend_classes, QUERY_METHODS
 from .keys import check_keying
 from . import c06
@@ -79,7 +79,7 @@ def _forget_by_scan(ck, R, cm, ff, sw, sep):
     for c in sw:
         # the selection prefix, however it is spelled (concatenation / format / f-string, through temporaries), is
         # <function reference>.qualified_name followed by exactly the key separator
-        parts = A.str_parts(ff.expand(c.args[0])) if c.args else None
+        parts = A.str_parts(safe_expand(ff, c.args[0])) if c.args else None
         ok = bool(parts) and len(parts) == 2 and parts[0][0] == "expr" and parts[1] == ("lit", sep) and bool(own) \
             and A.norm(parts[0][1]) == own[0] + ".qualified_name"
         ck.ob(R, ff.key(c, "prefix-terminated"), ok,
@@ -148,24 +148,67 @@ def check_cache_reads_own_key(ck, cm: CacheModel, R):
     fa = FA(ck, cm.cls.methods["read_result"])
     ck.need(len(fa.fi.params) >= 2, "MemoryCache.read_result(memento) signature changed")
     mem = fa.fi.params[1]
-    own = {"self._cache_key_for_memento(%s)" % mem, "MemoryCache._cache_key_for_memento(%s)" % mem}
+    own = _cache_key_canon(ck, cm, ast.parse("self._cache_key_for_memento(%s)" % mem, mode="eval").body)
     slots = [cm.map] + ([cm.refs] if cm.refs else [])
     n = 0
     for r in fa.returns():
         if r.value is None:
             continue
-        e = fa.expand(r.value)
+        e = safe_expand(fa, r.value, r)
         subs = [x for x in ast.walk(e) if isinstance(x, ast.Subscript) and self_attr(x.value) in slots]
         gets = [x for x in ast.walk(e) if isinstance(x, ast.Call) and A.call_attr(x) in ("get", "pop") and self_attr(A.call_recv(x)) in slots and x.args]
-        keys = [A.norm(x.slice) for x in subs] + [A.norm(x.args[0]) for x in gets]
+        keys = [x.slice for x in subs] + [x.args[0] for x in gets]
         n += 1
-        ok = bool(keys) and all(k in own for k in keys)
+        foreign = [k for k in keys if _cache_key_canon(ck, cm, k) != own]
+        ok = bool(keys) and not foreign
         ck.ob(R, fa.key(r, "reads-own-key"), ok,
               "the served value is read under the asked memento's own cache key" if ok else
               "read_result returns a value read under `%s`, not under the cache key of the memento it was asked about: a call can be answered with "
-              "the value cached for another call (e.g. one that wrote a different result under the same override key)" % ([k for k in keys if k not in own] or ["no cache slot"])[0],
+              "the value cached for another call (e.g. one that wrote a different result under the same override key)" % ([A.norm(k) for k in foreign] or ["no cache slot"])[0],
               fa.where(r))
     ck.need(n >= 1, "MemoryCache.read_result returns no value")
+
+
+def _cache_key_canon(ck, cm, key_expr) -> str:
+    """Canonical text of a cache key expression: calls of the cache's own key builders (`_cache_key_for_memento`,
+    `_cache_key_for_fn`, via self / the class) are replaced by what they return, and string building is flattened,
+    so a key is the same whether it is obtained through the helpers or written out in place."""
+    import copy
+
+    def inline(e, depth):
+        class T(ast.NodeTransformer):
+            def visit_Call(self, n_):
+                self.generic_visit(n_)
+                f = n_.func
+                if depth < 4 and isinstance(f, ast.Attribute) and isinstance(f.value, ast.Name) and f.value.id in ("self", "cls", cm.cls.name) \
+                        and f.attr in cm.cls.methods and f.attr.startswith("_cache_key"):
+                    m = cm.cls.methods[f.attr]
+                    rets = [s_ for s_ in A.all_stmts(m.node) if isinstance(s_, ast.Return) and s_.value is not None]
+                    if len(rets) == 1:
+                        try:
+                            body = FA(ck, m).expand(rets[0].value)
+                        except AnalysisError:
+                            body = copy.deepcopy(rets[0].value)
+                        bound = _bind(n_, m.params)
+
+                        class S(ast.NodeTransformer):
+                            def visit_Name(self, x_):
+                                return copy.deepcopy(bound[x_.id]) if x_.id in bound and isinstance(x_.ctx, ast.Load) else x_
+
+                        return inline(S().visit(body), depth + 1)
+                return n_
+
+        return T().visit(e)
+
+    e = inline(copy.deepcopy(key_expr), 0)
+    parts = A.str_parts(e)
+    if parts and len(parts) > 1:
+        out = None
+        for (k, v) in parts:
+            node = ast.Constant(value=v) if k == "lit" else v
+            out = node if out is None else ast.BinOp(left=out, op=ast.Add(), right=node)
+        e = out
+    return A.norm(e)
 
 
 def check_metadata_single_form(ck, R):
@@ -178,7 +221,7 @@ def check_metadata_single_form(ck, R):
     for c in dels:
         if not c.args:
             continue
-        e = fa.expand(c.args[0])
+        e = safe_expand(fa, c.args[0], c)
         inner = [x for x in ast.walk(e) if isinstance(x, ast.Call) and A.call_attr(x) == "_get_metadata_key"]
         if any(len(x.args) >= 3 and isinstance(x.args[2], ast.UnaryOp) and isinstance(x.args[2].op, ast.Not) and A.norm(x.args[2].operand) == "stored_with_data" for x in inner):
             ok = True
@@ -214,7 +257,22 @@ def check_delete_enumerates_versions(ck, R):
 def _versions_dir_literals(ck):
     """The directory-name literal(s) under which versioned objects are written (`.versions`), from the writer's path builder."""
     pv = FA(ck, FSDS + "._get_path_versioned")
-    return {s_ for r in pv.returns() if r.value is not None for s_ in A.strings_in(pv.expand(r.value)) if s_.startswith(".") and "{" not in s_}
+    return _dot_components(pv)
+
+
+def _dot_components(fa: FA):
+    """Literal path components starting with '.' in what `fa` returns: whole constant arguments of joinpath / os.path.join
+    (locals expanded); when the path is not built by such a call, every '.'-literal of the returned expression."""
+    comps, lits = set(), set()
+    for r in fa.returns():
+        if r.value is None:
+            continue
+        e = safe_expand(fa, r.value, r)
+        for c in ast.walk(e):
+            if isinstance(c, ast.Call) and A.call_attr(c) in ("joinpath", "join"):
+                comps |= {a.value for a in c.args if isinstance(a, ast.Constant) and isinstance(a.value, str) and a.value.startswith(".")}
+        lits |= {s_ for s_ in A.strings_in(r.value) if s_.startswith(".")}
+    return comps or lits
 
 
 def _version_scan_loops(fa: FA, vlits):
@@ -759,7 +817,7 @@ def check_path_scheme(ck):
     lits_pv = _versions_dir_literals(ck)
     if ck.repo.try_func(FSDS + "._get_versions_directory") is not None:
         vd = FA(ck, FSDS + "._get_versions_directory")
-        lits_vd = {s for r in vd.returns() if r.value is not None for s in A.strings_in(vd.expand(r.value)) if s.startswith(".")}
+        lits_vd = _dot_components(vd)
     else:
         # the directory builder was inlined into the delete scan: the names are those that flow into the scan's iterable
         dk = FA(ck, FSDS + "._delete_all_versions_for_key")
